@@ -14,7 +14,7 @@ using Sp = Eigen::SparseMatrix<T>;
 const char* vf_driver() { return "c17_lobpcg"; }
 static const LD C = 200;
 
-long vf_ncases(const vf::Ctx& ctx) { return ctx.thorough ? 10000 : 480; }
+long vf_ncases(const vf::Ctx& ctx) { return ctx.thorough ? 40000 : 4000; }
 
 void vf_run_case(vf::Ctx& ctx, long idx)
 {
@@ -25,7 +25,8 @@ void vf_run_case(vf::Ctx& ctx, long idx)
     { const double x = r.uni(); k = x < 0.08 ? 1 : (x < 0.16 ? (int) r.range(10, std::max(10, (n - 1) / 5)) : (int) r.range(2, std::min(9, (n - 1) / 5))); }
     if (5 * k >= n) k = std::max(1, (n - 1) / 5);
     const bool withB = r.coin(0.5), withP = r.coin(0.5);
-    const T tol = r.pick(std::vector<T>{1e-5, 1e-7, 1e-8});
+    // tolerances down to where the residual blocks that get orthonormalised are themselves of norm ~1e-9 (an absolute threshold anywhere in that path shows there)
+    const T tol = r.pick(std::vector<T>{1e-5, 1e-7, 1e-8, 1e-9, 1e-10, 1e-10, 1e-11, 1e-11});
     const int maxit = (int) r.pick(std::vector<long>{5, 40, 150, 150});
     // A with well separated smallest eigenvalues (prescribed), positive definite
     Eigen::VectorXd lam(n);
@@ -90,7 +91,8 @@ void vf_run_case(vf::Ctx& ctx, long idx)
     Gm.diagonal().array() -= LD(1);
     // X is updated from the coefficients of an inner generalized eigensolve that is itself only accurate to its own tolerance (1e-10): the B-orthonormality of X
     // is maintained to that level per iteration, not to rounding level
-    const LD oal = (C * n * u + 1e-9L) * kB * maxit;
+    // ... and eigenvectors that are asked for to tol*n are B-orthonormal to that accuracy (relative to the scale of the pencil), not beyond
+    const LD oal = (C * n * u + 1e-9L) * kB * maxit + tolL2 / std::abs((LD) sref[n - 1]);
     if (!within(ctx, "B-orthonormal", Gm.cwiseAbs().maxCoeff(), oal)) bad("eigenvectors-not-B-orthonormal", Gm.cwiseAbs().maxCoeff(), oal);
     const MatLD RR = AL * XL - BL * XL * ev.cast<LD>().asDiagonal();
     for (int i = 0; i < k; i++)
